@@ -96,6 +96,31 @@ fn main() {
 	if args.len() < 2 || (args.len() < 3 && args[1] != "c17-miri") {
 		usage();
 	}
+	if args[1] == "dbg-fault" {
+		// dbg-fault <format> <size> <k>...: a single "p: zzz" style document of about <size> bytes, detected, reader failing after k bytes
+		let f = run::F::parse(&args[2]).unwrap();
+		let size: usize = args[3].parse().unwrap();
+		let z = "z".repeat(size);
+		let input = match f {
+			run::F::Json => format!("{{\"p\":\"{z}\"}}\n").into_bytes(),
+			run::F::Yaml => format!("p: {z}\n").into_bytes(),
+			run::F::Toml => format!("p = \"{z}\"\n").into_bytes(),
+			run::F::Msgpack => {
+				let mut mp = vec![0x81, 0xa1, b'p', 0xdb];
+				mp.extend((size as u32).to_be_bytes());
+				mp.extend(z.as_bytes());
+				mp
+			}
+		};
+		for k in &args[4..] {
+			let k: usize = if k == "len" { input.len() } else { k.parse().unwrap() };
+			for from in [Some(f), None] {
+				let r = run::run_reader(env::FailAtReader::new(&input, k, 0), from, run::F::Json);
+				println!("{} size {} k {} from {:?}: ok={} err={:?} out={} bytes", f.name(), input.len(), k, from.map(|f| f.name()), r.ok, r.err, r.out.len());
+			}
+		}
+		return;
+	}
 	if args[1] == "dbg-strings" {
 		let to = run::F::parse(&args[2]).unwrap();
 		let mut fam = vals::string_family();
